@@ -35,7 +35,7 @@ for d in sorted(glob.glob("/verif/seeded/C*")):
             "confirmed": conf.get("confirmed", False),
         },
         "checks_run": {
-            "how": "tools/seeded.py try patch.diff <property> all (MUT_LAB=/tmp/mutlab: the patch applied to a scratch worktree of /repo at the same commit, a copy of /verif/sim rebuilt against it; own check 15 s, every other check 5 s; evidence and replay files to a scratch directory)",
+            "how": "tools/seeded.py try patch.diff <property> all (MUT_LAB=/tmp/mutlab: the patch applied to a scratch worktree of /repo at the same commit, a copy of /verif/sim rebuilt against it; every check with its own fixed quick budget, i.e. what `./check <id> quick` runs; evidence and replay files to a scratch directory)",
             "own_check_exit": own.get("exit"),
             "own_check_clauses": [c[:400] for c in own.get("clauses", [])][:3],
             "other_checks_that_alarmed": {k: [c[:300] for c in v.get("clauses", [])][:1] for k, v in others.items()},
